@@ -78,7 +78,7 @@ struct VfRun {
     H.vf = (OggVorbis_File *)H.mem; H.alloc = true;
   }
   void setup_file(Handle &H, const Rec &f, int id) {
-    H.sf = SimFile(); H.sf.bytes = &sr.bytes; H.sf.seekable = f.i("seekable", 1) != 0; H.sf.rdpol = (int)f.i("rdpol", 0); H.sf.rdk = (int)f.i("rdk", 64); H.sf.rdrng.reseed(f.u("rdseed", 1) + id); H.sf.id = id;
+    H.sf = SimFile(); H.sf.bytes = &sr.bytes; H.sf.seekable = f.i("seekable", 1) != 0; H.sf.rdpol = (int)f.i("rdpol", 0); H.sf.rdk = (int)f.i("rdk", 64); H.sf.rdrng.reseed(f.u("rdseed", 1) + id); H.sf.id = id; H.sf.errno_noise = (int)f.i("errnoise", 0); H.sf.enrng.reseed(f.u("rdseed", 1) * 3 + 11);
     H.seekable = H.sf.seekable;
   }
   // a cookie read function reports an error as -1 (0 would be end-of-file to stdio, which then also forgets its file offset)
